@@ -59,6 +59,26 @@ theorem update_coherent (items : List (Path × PV)) (t : M) (hc : Coherent t) :
     Coherent (updateC (updMeasureC items) items t).1 ∧ (updateC (updMeasureC items) items t).1.shape = t.shape :=
   ⟨(updateC_spec _ items t hc).2.2, (updateC_spec _ items t hc).1⟩
 
+/-- `auto_batch_size_(batch_dims)` (`_set_max_batch_size`) on a coherent tensordict, for every `batch_dims`:
+  * it answers ok or ValueError — the batch size it computes (the leading dims shared by the first entry and every
+    other entry that is not an empty nested tensordict, nested tensordicts first) is NEVER refused as incompatible
+    with an entry (no RuntimeError), although the nested tensordicts were resized before;
+  * when it returns normally the whole tree is coherent again — nested tensordicts that were cut to `batch_dims`
+    dims or stretched to their own maximum fit the batch size their parent ends up with — and on the same device. -/
+theorem auto_batch_size_coherent (bd : Option Nat) (bs : Shape) (dv : Option Nat) (ns : Option DimNames) (kids : Kids)
+    (hc : Coherent (.node bs dv ns kids)) :
+    let r := autoBatchM bd (.node bs dv ns kids)
+    (r.2 = .ok ∨ r.2 = .err .value) ∧ (r.2 = .ok → Coherent r.1 ∧ ∀ d, r.1.onDev d = (dv == some d)) :=
+  autoBatchM_spec bd bs dv ns kids hc
+
+/-- the batch size chosen by `_set_max_batch_size` is a common prefix: of the first entry's shape and of the shape of
+every other entry that is not an empty nested tensordict — for every `batch_dims` limit -/
+theorem auto_batch_size_common_prefix (bd : Option Nat) (first : Shape) (others : List (Shape × Bool)) :
+    autoPrefix bd [] first others <+: first ∧
+    ∀ sb ∈ others, sb.2 = false → autoPrefix bd [] first others <+: sb.1 := by
+  have := autoPrefix_spec bd first [] [] others (List.prefix_refl _) (fun _ => rfl)
+  simpa using this
+
 /-! ## one step -/
 
 /-- the value of a `set` is itself a coherent tensor / tensordict (what the constructors deliver) -/
@@ -72,6 +92,7 @@ node holding that tensordict ("shrinking a child's batch size below its parent's
 the documented exclusion). -/
 def InScope (t : M) : Op → Prop
   | .setBatch h bs => handleOk bs h t
+  | .autoBatch h _ => h = []
   | _ => True
 
 /-- FULL STATEMENT: `Coherent t → ValOk op → InScope t op → Coherent (step t op).1` for every operation and
@@ -80,7 +101,8 @@ every outcome. It is FALSE of the code for `batch_size` assignments that fail wi
 and the name `_partial`. Proved: every modelled operation (set, batch_size, names, del_, rename_key_,
 create_nested, clear, pop, popitem, setdefault, refine_names, update with dict payloads) and every other outcome, accepted or raising, on the root or through any nested handle. -/
 theorem step_coherent_partial (t : M) (hc : Coherent t) (op : Op) (hv : ValOk op) (hs : InScope t op)
-    (hn : ∀ h bs, op = .setBatch h bs → (step t op).2 ≠ .err .value) : Coherent (step t op).1 := by
+    (hn : ∀ h bs, op = .setBatch h bs → (step t op).2 ≠ .err .value)
+    (ha : ∀ h bd, op = .autoBatch h bd → (step t op).2 = .ok) : Coherent (step t op).1 := by
   cases op with
   | set h key v => exact (atPath_keeps _ (fun n hn => setPath_false_spec key v n hn hv) h t hc).2.2
   | setBatch h bs =>
@@ -103,18 +125,28 @@ theorem step_coherent_partial (t : M) (hc : Coherent t) (op : Op) (hv : ValOk op
   | setdefault h key v => exact (atPath_keeps _ (fun n hn => setDefaultPath_spec key v n hn hv) h t hc).2.2
   | refineNames h ns => exact (atPath_keeps _ (fun n hn => refineNamesM_spec ns n hn) h t hc).2.2
   | update h items => exact (atPath_keeps _ (fun n hn => updateC_spec _ items n hn) h t hc).2.2
+  | autoBatch h bd =>
+    have hok := ha h bd rfl
+    have hh : h = [] := hs
+    subst hh
+    cases t with
+    | leaf s d => exact hc
+    | node tbs dv ns kids =>
+      simp only [step, atPath] at hok ⊢
+      exact ((autoBatchM_spec bd tbs dv ns kids hc).2 hok).1
 
 /-- histories: the side conditions along a run -/
 def Safe (t : M) : List Op → Prop
   | [] => True
-  | op :: ops => ValOk op ∧ InScope t op ∧ (∀ h bs, op = .setBatch h bs → (step t op).2 ≠ .err .value) ∧ Safe (step t op).1 ops
+  | op :: ops => ValOk op ∧ InScope t op ∧ (∀ h bs, op = .setBatch h bs → (step t op).2 ≠ .err .value) ∧
+      (∀ h bd, op = .autoBatch h bd → (step t op).2 = .ok) ∧ Safe (step t op).1 ops
 
 /-- every state reachable from a coherent tree by any finite history of the covered operations — accepted or
 rejected, on the root or through nested handles — is coherent (induction over the op list; no bound). -/
 theorem run_coherent_partial : ∀ (ops : List Op) (t : M), Coherent t → Safe t ops → Coherent (run t ops)
   | [], _, hc, _ => hc
   | op :: ops, t, hc, hs =>
-    run_coherent_partial ops (step t op).1 (step_coherent_partial t hc op hs.1 hs.2.1 hs.2.2.1) hs.2.2.2
+    run_coherent_partial ops (step t op).1 (step_coherent_partial t hc op hs.1 hs.2.1 hs.2.2.1 hs.2.2.2.1) hs.2.2.2.2
 
 /-- A write that would break coherence is rejected instead of being stored: a rejected `set(k, v)` leaves the
 node's entries exactly as they were (same keys in the same order, same shapes; at most dim names changed). -/
